@@ -1179,8 +1179,13 @@ def analyze(repo, bdir, include_flags, overrides=None, jobs=None):
     efun_fns = sorted(set(d["name"] for d in defs if d["name"].startswith("f_") and d["file"].startswith("lib/efuns/")))
     fs_efuns = [f for f in efun_fns if reaches(f, med_fns, CUT)]
     loader_efuns = [f for f in efun_fns if f not in fs_efuns and (reaches(f, {"load_object"}) or reaches(f, ldr_fns, CUT))]
+    # through which apply function does check_valid_path () consult the master?  (apply_master_ob propagates an
+    # error raised by valid_read / valid_write; the safe_* variants swallow it and return 0 = "not defined")
+    med_applies = sorted(set(c["callee"] for c in calls if c["caller"] == "check_valid_path" and "apply" in c["callee"]))
+    if not any(d["name"] == "check_valid_path" for d in defs):
+        raise SitesError("check_valid_path", "function check_valid_path not found in the scanned files")
     return dict(scanned=sorted(scanned), notScanned=not_scanned, fsCallees=sorted(FS_CALLEES),
-                sites=sites, calls=rows, fsEfuns=fs_efuns, loaderEfuns=loader_efuns)
+                sites=sites, calls=rows, fsEfuns=fs_efuns, loaderEfuns=loader_efuns, mediationApplies=med_applies)
 
 
 def dedup(rows, keys):
@@ -1279,6 +1284,8 @@ def render(res):
     out.append(llist("fsEfuns", "String", [lstr(x) for x in res.get("fsEfuns", [])],
                      "efun implementations (f_* in lib/efuns) from which a file-system call site of lib/efuns or "
                      "lib/lpc/object.c is reachable in the call graph of the scanned files"))
+    out.append(llist("mediationApplies", "String", [lstr(x) for x in res.get("mediationApplies", [])],
+                     "the apply functions check_valid_path () calls to consult the master"))
     out.append(llist("loaderEfuns", "String", [lstr(x) for x in res.get("loaderEfuns", [])],
                      "efun implementations that reach the file system only through load_object / #include / "
                      "saved binaries"))
